@@ -324,6 +324,87 @@ def install_protobuf(it, prog):
         recv.start += n
         return Ok(())
     it.models[("PbReader", "read_unknown")] = read_unknown
+
+    # ---- fixed32 / float, int32, map entries (quick_protobuf 0.8 writer.rs / reader.rs)
+    import struct as _struct
+
+    def f32_bytes(v):
+        if isinstance(v, (int, float)) and not isinstance(v, bool):
+            return list(_struct.pack("<f", float(v)))
+        bv = z3.fpToIEEEBV(v)   # not NaN: obligations assume it
+        return [z3.simplify(z3.ZeroExt(56, z3.Extract(8 * i + 7, 8 * i, bv))) for i in range(4)]
+
+    def write_float(interp, recv, args):
+        recv.buf.extend(f32_bytes(args[0]))
+        return Ok(())
+    it.models[("PbWriter", "write_float")] = write_float
+
+    def read_float(interp, recv, args):
+        data = args[0]
+        if recv.start + 4 > recv.end:
+            return pb_error()
+        bs = data[recv.start:recv.start + 4]
+        recv.start += 4
+        if all(is_conc(b) for b in bs):
+            return Ok(_struct.unpack("<f", bytes(bs))[0])
+        bv = z3.Concat(*[z3.Extract(7, 0, rseval.to_bv(b)) for b in reversed(bs)])
+        return Ok(z3.simplify(z3.fpBVToFP(bv, z3.Float32())))
+    it.models[("PbReader", "read_float")] = read_float
+
+    def write_int32(interp, recv, args):
+        v = args[0]
+        if is_conc(v):
+            v &= MASK64   # i32 as i64 as u64: sign extension (the evaluator keeps integers at 64 bits)
+        return w_varint(interp, recv, v)
+    it.models[("PbWriter", "write_int32")] = write_int32
+
+    def read_int32(interp, recv, args):
+        v = r_varint(interp, recv, args[0])
+        if v is None:
+            return pb_error()
+        if is_conc(v):
+            v &= 0xffffffff
+            return Ok(v - (1 << 32) if v >= (1 << 31) else v)
+        return Ok(z3.simplify(z3.SignExt(32, z3.Extract(31, 0, v))))
+    it.models[("PbReader", "read_int32")] = read_int32
+
+    def write_map(interp, recv, args):
+        size, tag_k, fk, tag_v, fv = args
+        w_varint(interp, recv, size)
+        w_varint(interp, recv, tag_k)
+        r = interp.call_value(fk, [recv])
+        if isinstance(r, Enum) and r.variant == "Err":
+            return r
+        w_varint(interp, recv, tag_v)
+        return interp.call_value(fv, [recv])
+    it.models[("PbWriter", "write_map")] = write_map
+
+    def read_map(interp, recv, args):
+        data, fk, fv = args
+        r = read_len_slice(interp, recv, data)
+        if r is None:
+            return pb_error()
+        sub = PbReader(r[0], r[1])
+        k, v = "", ""   # K::default(), V::default(): every map of the repository's messages is string -> string
+        while sub.start < sub.end:
+            t = data[sub.start]
+            sub.start += 1
+            if not is_conc(t):
+                raise Unsupported("symbolic map-entry tag")
+            if t >> 3 == 1:
+                x = interp.call_value(fk, [sub, data])
+            elif t >> 3 == 2:
+                x = interp.call_value(fv, [sub, data])
+            else:
+                return pb_error()
+            if isinstance(x, Enum) and x.variant == "Err":
+                return x
+            if t >> 3 == 1:
+                k = x.payload[0]
+            else:
+                v = x.payload[0]
+        return Ok((k, v))
+    it.models[("PbReader", "read_map")] = read_map
     # Cow helpers used by the generated code / DTO conversions
     it.fn_models["Cow::Borrowed"] = lambda interp, args: args[0]
     it.fn_models["Cow::Owned"] = lambda interp, args: args[0]
